@@ -120,6 +120,10 @@ Theorem printing_uses_display : forall o,
 Proof. exact SymbolsProofs.printing_uses_display. Qed.
 Print Assumptions printing_uses_display.
 
+Theorem printing_bare_uses_display : forall o, okind o = KIndexed -> pp_bare o = PText (odisplay o).
+Proof. exact SymbolsProofs.printing_bare_uses_display. Qed.
+Print Assumptions printing_bare_uses_display.
+
 Theorem display_is_given : forall op st y d,
   given_display op = Some d -> d <> "" -> snd (exec op st) = Some y -> odisplay y = d.
 Proof. exact SymbolsProofs.display_is_given. Qed.
